@@ -136,7 +136,7 @@ impl SequenceNumberCounter {
     #[verifier::external_body]
     pub fn next(&self, Tracked(w): Tracked<&mut World>) -> (r: u64)
         requires !self.is_visible@,
-                 old(w).journal.locked, // [C06:P-LOCK-seqno] [C01:P-LOCK-seqno] [C02:P-LOCK-seqno]
+                 old(w).journal.locked, // [C06:P-LOCK-seqno] [C01:P-LOCK-seqno] [C02:P-LOCK-seqno] [C04:P-LOCK-seqno-ingestion-relies-on-it]
                  old(w).inflight is None, // [C06:one-seqno-per-batch] [C03:one-seqno-per-batch]
                  old(w).seqno < u64::MAX,
         ensures r == old(w).seqno,
